@@ -34,6 +34,7 @@ namespace {
         bool timed = false;
         bool signalled = false;
         int suppress = 0;
+        int freeze = 0;             // pre-emption gaps are not counted (thread attach/detach overhead)
         uint64_t pending_sig = 0;
         pthread_t handle{};
         bool has_handle = false;
@@ -368,7 +369,12 @@ namespace {
         if ( S.thr.size() < 2 )
             return;
         count_point( me );
-        if ( S.p.rw_denom ) {
+        if ( !me->freeze )
+            ++S.st.counted;
+        if ( me->freeze ) {
+            // still a scheduling point for fairness, but not a place the generated schedule aims at
+        }
+        else if ( S.p.rw_denom ) {
             uint64_t r = next_rng();
             if ( r % S.p.rw_denom == 0 ) {
                 Thr* to = pick_other( me, unsigned( r >> 32 ));
@@ -515,6 +521,9 @@ namespace {
 
     no_sched::no_sched() noexcept { if ( t_self ) ++t_self->suppress; }
     no_sched::~no_sched() noexcept { if ( t_self ) --t_self->suppress; }
+    gap_freeze::gap_freeze() noexcept { if ( t_self ) ++t_self->freeze; }
+    gap_freeze::~gap_freeze() noexcept { if ( t_self ) --t_self->freeze; }
+    uint64_t counted_points() noexcept { return S.st.counted; }
 
     void session_begin( SchedParams const& p )
     {
@@ -582,6 +591,7 @@ namespace {
             t->wait_obj = nullptr;
             t->timed = t->signalled = false;
             t->suppress = 0;
+            t->freeze = 0;
             t->pending_sig = 0;
             t->body = &bodies[i];
             S.thr.push_back( t );
